@@ -232,6 +232,9 @@ def c06(lab, where):
             c0 = None
         if c0 is not None and c0.block_size == c.block_size and c0.hash_size == c.hash_size:
             out += paritymod.deleted_continuity(c0, c)
+            hist = getattr(lab, "history", None)
+            if hist and getattr(lab, "content_before_cmd", None) == len(hist):
+                out += paritymod.info_continuity(c0, c, hist[-1][0])
     for o in out:
         o["where"] = where
     return out
